@@ -19,6 +19,16 @@ def st(x):
 
 
 # ------------------------------------------------------------------ projections
+SCD_ATTRS = ('InResponseTo', 'NotBefore', 'NotOnOrAfter', 'Recipient', 'Address')
+COND_ATTRS = ('NotBefore', 'NotOnOrAfter')
+AUTHN_ATTRS = ('AuthnInstant', 'SessionIndex', 'SessionNotOnOrAfter')
+
+
+def _known(attrib, names):
+    # only the attributes the schema declares take part in the projection (foreign attributes are extension content on the object side)
+    return tuple(sorted((k, v) for k, v in attrib.items() if k in names))
+
+
 def raw_proj(e):
     """identity projection of an Assertion element (ElementTree)"""
     nid = e.find(A + 'Subject/' + A + 'NameID')
@@ -26,11 +36,11 @@ def raw_proj(e):
     return {
         'id': e.get('ID'), 'ver': e.get('Version'), 'ii': e.get('IssueInstant'), 'issuer': st(e.findtext(A + 'Issuer')),
         'nameid': None if nid is None else (st(nid.text), nid.get('Format'), nid.get('NameQualifier'), nid.get('SPNameQualifier'), nid.get('SPProvidedID')),
-        'scd': sorted((sc.get('Method'), tuple(sorted((sc.find(A + 'SubjectConfirmationData').attrib if sc.find(A + 'SubjectConfirmationData') is not None else {}).items())))
+        'scd': sorted((sc.get('Method'), _known(sc.find(A + 'SubjectConfirmationData').attrib if sc.find(A + 'SubjectConfirmationData') is not None else {}, SCD_ATTRS))
                       for sc in e.findall(A + 'Subject/' + A + 'SubjectConfirmation')),
-        'cond': None if cond is None else (tuple(sorted(cond.attrib.items())), sorted(tuple(sorted(st(a.text) for a in ar.findall(A + 'Audience')))
+        'cond': None if cond is None else (_known(cond.attrib, COND_ATTRS), sorted(tuple(sorted(st(a.text) for a in ar.findall(A + 'Audience')))
                                                                                        for ar in cond.findall(A + 'AudienceRestriction'))),
-        'authn': sorted((tuple(sorted(a.attrib.items())), st(a.findtext(A + 'AuthnContext/' + A + 'AuthnContextClassRef'))) for a in e.findall(A + 'AuthnStatement')),
+        'authn': sorted((_known(a.attrib, AUTHN_ATTRS), st(a.findtext(A + 'AuthnContext/' + A + 'AuthnContextClassRef'))) for a in e.findall(A + 'AuthnStatement')),
         'attrs': sorted((at.get('Name'), at.get('NameFormat'), tuple(st(v.text) for v in at.findall(A + 'AttributeValue')))
                         for s in e.findall(A + 'AttributeStatement') for at in s.findall(A + 'Attribute')),
     }
